@@ -9,6 +9,13 @@
 //!                                  -> ok packs=<n> {T|D:<id>=<len:sum>|-}*
 //!   E  <seed> <ver> <comp> <chunker> <csize> <cmin> <cmax> <dpack> <tpack> <entries> <depth> <maxfile> <flags>
 //!                                  full backup + every read-back                -> ok k=v ... | FAIL sig=<s> what=<...>
+//!   T  <ntrees> {<id> <n> {<stored-hex> <subtree|0> <tag>}*}* <root> <nq> {<ncomp> {hex}*}*
+//!                                  trees stored as given (names are the STORED strings), listing through
+//!                                  Repository::ls, lookups through Repository::node_from_path
+//!                                  -> ok ls=<path>:<tag>,.. | q=<tag|->,..
+//!   M  <sec> <nsec>                timespec -> SystemTime -> Timestamp::try_from (the mapper's capture), then
+//!                                  LocalDestination::set_times (hook) on a real file, stat
+//!                                  -> ok cap=<second>:<subsec>|none res=<sec>:<nsec>|- | fs-inexact
 //!   S  <seed> <chunker> <csize> <cmin> <cmax> <nfiles> <maxfile> <style>
 //!                                  backup through Repository::archive from an in-memory ReadSource whose
 //!                                  readers fragment reads and inject ErrorKind::Interrupted; dump and
@@ -730,6 +737,105 @@ fn e2e_case(t: &mut Toks) -> Result<String, Fail> {
     ))
 }
 
+// --------------------------------------------------------------------------- path lookup on scripted trees
+
+fn tree_case(t: &mut Toks) -> anyhow::Result<String> {
+    use rustic_core::repofile::Tree;
+    let ntrees = t.u() as usize;
+    let mut blobs = Vec::new();
+    for _ in 0..ntrees {
+        let id = t.u();
+        let n = t.u() as usize;
+        let mut nodes = Vec::new();
+        for _ in 0..n {
+            let stored = String::from_utf8(unhex(t.s()))?;
+            let (sub, tag) = (t.u(), t.u());
+            let meta = Metadata { size: tag, ..Default::default() };
+            let mut node = Node::new_node(OsStr::new("x"), if sub == 0 { NodeType::File } else { NodeType::Dir }, meta);
+            node.name = stored;
+            if sub != 0 {
+                node.subtree = Some(TreeId::from(id_from_u64(sub)));
+            }
+            nodes.push(node);
+        }
+        let (chunk, _) = Tree { nodes }.serialize()?;
+        blobs.push((id_from_u64(id), chunk));
+    }
+    let root = TreeId::from(id_from_u64(t.u()));
+    let repo = plain_repo(false)?;
+    rustic_core::verif_hooks::c01::run_packer_segments(&repo, 1 << 20, &[(true, blobs)])?;
+    let repo = repo.to_indexed()?;
+    let mut rootnode = Node::new_node(OsStr::new(""), NodeType::Dir, Metadata::default());
+    rootnode.subtree = Some(root);
+    let mut out = String::from("ok ls=");
+    let mut first = true;
+    for item in repo.ls(&rootnode, &LsOptions::default())? {
+        match item {
+            Ok((p, n)) => {
+                let comps: Vec<String> = p.components().map(|c| tohex(c.as_os_str().as_bytes())).collect();
+                if !first {
+                    out.push(',');
+                }
+                first = false;
+                out.push_str(&format!("{}:{}", comps.join("/"), n.meta.size));
+            }
+            Err(_) => {
+                out.push_str(",lserr");
+                break;
+            }
+        }
+    }
+    out.push_str(" | q=");
+    let nq = t.u() as usize;
+    for k in 0..nq {
+        let nc = t.u() as usize;
+        let mut p = PathBuf::new();
+        for _ in 0..nc {
+            p.push(OsStr::from_bytes(&unhex(t.s())));
+        }
+        if k > 0 {
+            out.push(',');
+        }
+        match repo.node_from_path(root, &p) {
+            Ok(n) => out.push_str(&n.meta.size.to_string()),
+            Err(_) => out.push('-'),
+        }
+    }
+    Ok(out)
+}
+
+// --------------------------------------------------------------------------- time conversion
+
+fn time_case(t: &mut Toks) -> anyhow::Result<String> {
+    use rustic_core::jiff::Timestamp;
+    use std::time::{Duration, UNIX_EPOCH};
+    let (s, n) = (t.i(), t.u() as u32);
+    let st = if s >= 0 {
+        UNIX_EPOCH.checked_add(Duration::new(s as u64, n))
+    } else {
+        UNIX_EPOCH.checked_sub(Duration::new(s.unsigned_abs(), 0)).and_then(|x| x.checked_add(Duration::new(0, n)))
+    };
+    let Some(st) = st else { return Ok("ok cap=none res=-".into()) };
+    // mapper.rs: m.modified().ok().and_then(|t| Timestamp::try_from(t).ok())
+    let Ok(ts) = Timestamp::try_from(st) else { return Ok("ok cap=none res=-".into()) };
+    let cap = format!("cap={}:{}", ts.as_second(), ts.subsec_nanosecond());
+    let dir = tempfile::tempdir()?;
+    let f = dir.path().join("f");
+    std::fs::write(&f, b"x")?;
+    // does the file system store this timespec at all?
+    let stored = std::fs::File::open(&f)?.set_modified(st).is_ok() && {
+        let md = std::fs::symlink_metadata(&f)?;
+        (md.mtime(), md.mtime_nsec()) == (s, i64::from(n))
+    };
+    if !stored {
+        return Ok(format!("ok {cap} fs-inexact"));
+    }
+    std::fs::File::open(&f)?.set_modified(UNIX_EPOCH + Duration::new(1_000_000_000, 0))?;
+    rustic_core::verif_hooks::c01::set_times(dir.path().to_str().unwrap(), "f", ts.as_second(), ts.subsec_nanosecond())?;
+    let md = std::fs::symlink_metadata(&f)?;
+    Ok(format!("ok {cap} res={}:{}", md.mtime(), md.mtime_nsec()))
+}
+
 // --------------------------------------------------------------------------- archive from a fragmenting source
 
 /// A reader over `data` that returns short reads and `ErrorKind::Interrupted` errors (both legal
@@ -940,6 +1046,8 @@ fn run_line(line: &str) -> String {
             Ok(s) => Ok(s),
             Err(f) => Ok(format!("FAIL sig={} what={}", f.sig, one_line(&f.what))),
         },
+        "T" => tree_case(&mut t),
+        "M" => time_case(&mut t),
         "S" => match stream_case(&mut t) {
             Ok(s) => Ok(s),
             Err(f) => Ok(format!("FAIL sig={} what={}", f.sig, one_line(&f.what))),
